@@ -328,6 +328,7 @@ def verify_lemma(world, cs, name, fi, types, options, limits=Limits):
         ctx.loop_cut = False
         contracts = cs.contracts if not options.get("inline_all") else {}
         I = Interp(world, ctx, contracts)
+        I.prefer_bv = bool(options.get("bv"))
         I.tenv = cs.tenv
         I.loop_hooks = cs.loop_hooks()
         res.paths += 1
